@@ -16,10 +16,24 @@
     * `C15_weights`  (Tie A) default weights are info 0 / warning 1 / error 5 / fatal 0 and every
                      call site overriding them is in the documented-weightless list.
   `C15_full` is the conjunction; it is a theorem (`C15_full_holds`).
+
+  Second layer (`DiagScope.run`, RattrModel/DiagScope.lean): the place of a diagnostic is no longer
+  an input but computed by the `enter_file` discipline, and the SystemExit of a fatal travels
+  through the `with` / `try` scopes active at the raise (kinds from the regenerated scope table):
+    * `C15_scoped`          every scope passes ∧ every diagnostic raised in its own file ⇒ buckets,
+                            exit status and output are the contract's, with the places taken from
+                            where each construct really is (`bySrc`);
+    * `C15_scoped_exit`     the same for the exit status when a re-raising `except SystemExit`
+                            handler may hold the exception;
+    * `C15_scopes_benign`, `C15_entries_in_own_file`, `C15_enter_file_no_finally` (Tie A) and
+      `C15_scoped_pinned` (the end-to-end statement for scope ids of the code under test);
+    * `C15_scoped_needs_inOwnFile`, `C15_scoped_needs_no_suppress`: neither hypothesis can be dropped.
 -/
 import RattrModel.Diag
 import RattrModel.Spec.ExitCode
 import RattrModel.Generated.C15
+import RattrModel.DiagScope
+import RattrProofs.Lemmas.C15Scope
 
 namespace Rattr.C15
 open Rattr Rattr.Diag
@@ -341,5 +355,211 @@ example : (run (cfg0 true 0) [⟨.error, 0, .target⟩]).exit = 0 := by decide
 example : AllRel (SameButImportWeights false)
     [⟨.error, 5, .import_⟩, ⟨.warning, 1, .target⟩] [⟨.error, 0, .import_⟩, ⟨.warning, 1, .target⟩] :=
   .cons ⟨rfl, rfl, .inr ⟨rfl, .inl rfl⟩⟩ (.cons ⟨rfl, rfl, .inl rfl⟩ .nil)
+
+/-! ## Scoped runs: `enter_file` decides the bucket, `with` / `try` scopes decide whether a fatal exits -/
+
+section Scoped
+open Rattr.DiagScope Rattr.C15Scope
+
+/-- With scopes that let every SystemExit pass, a scoped run is `Diag.run` on the diagnostics
+placed by the `enter_file` discipline. -/
+theorem scoped_run_eq (cfg : Cfg) (steps : List Step) (hp : allPass steps = true) :
+    (DiagScope.run cfg steps).state = (Diag.run cfg (locate none [] steps)).state
+    ∧ (DiagScope.run cfg steps).exit = (Diag.run cfg (locate none [] steps)).exit
+    ∧ (DiagScope.run cfg steps).output = (Diag.run cfg (locate none [] steps)).output
+    ∧ (DiagScope.run cfg steps).logged = (Diag.run cfg (locate none [] steps)).printed := by
+  obtain ⟨h1, h2, h3, h4⟩ := go_of_passes cfg Run.init steps hp rfl
+  have h4' : (go cfg Run.init steps).pending = false := h4
+  have h3' : (go cfg Run.init steps).logged = (runEvents cfg State.init (locate none [] steps)).printed := by
+    simpa [Run.init] using h3
+  have h1' : (go cfg Run.init steps).state = (runEvents cfg State.init (locate none [] steps)).state := h1
+  have h2' : (go cfg Run.init steps).exited = (runEvents cfg State.init (locate none [] steps)).exited := h2
+  unfold DiagScope.run Diag.run
+  simp only [h4', Bool.or_false, h2', h1', h3']
+  split
+  · simp
+  · split <;> simp
+
+/-- **Buckets, exit status and output of a scoped run follow the contract, with every diagnostic
+counted where it really arose** — provided no active scope can stop a SystemExit and every
+diagnostic is raised while `current_file` is (a file of the kind of) the file its construct is in. -/
+theorem C15_scoped (cfg : Cfg) (steps : List Step)
+    (hp : allPass steps = true) (hf : inOwnFile none [] steps = true) :
+    (DiagScope.run cfg steps).state = Spec.buckets (Spec.processed cfg.strict (bySrc steps))
+    ∧ (DiagScope.run cfg steps).exit = Spec.exit cfg.strict cfg.threshold (bySrc steps)
+    ∧ (DiagScope.run cfg steps).output = Spec.outputPrinted cfg.strict cfg.threshold (bySrc steps) := by
+  obtain ⟨h1, h2, h3, _⟩ := scoped_run_eq cfg steps hp
+  rw [h1, h2, h3, locate_eq_bySrc _ _ _ hf]
+  exact ⟨C15_buckets _ _, C15_exit _ _, C15_output _ _⟩
+
+/-- The exit status (and whether the output is printed) also follows the contract when a
+re-raising `except SystemExit` handler may hold the exception while its body runs. -/
+theorem C15_scoped_exit (cfg : Cfg) (steps : List Step)
+    (hp : allBenign steps = true) (hf : inOwnFile none [] steps = true) :
+    (DiagScope.run cfg steps).exit = Spec.exit cfg.strict cfg.threshold (bySrc steps)
+    ∧ (DiagScope.run cfg steps).output = Spec.outputPrinted cfg.strict cfg.threshold (bySrc steps) := by
+  obtain ⟨h1, h2⟩ := go_of_benign cfg Run.init steps hp rfl
+  rw [← locate_eq_bySrc none [] steps hf]
+  have hinit : Run.init.pending = false := rfl
+  have hcur : Run.init.cur = none := rfl
+  have hstk : Run.init.stack = [] := rfl
+  have hst : Run.init.state = State.init := rfl
+  rw [hinit, hcur, hstk, Bool.false_or] at h1
+  rw [hcur, hstk, hst] at h2
+  have key : (DiagScope.run cfg steps).exit = (Diag.run cfg (locate none [] steps)).exit
+      ∧ (DiagScope.run cfg steps).output = (Diag.run cfg (locate none [] steps)).output := by
+    have hx := runEvents_exited cfg State.init (locate none [] steps)
+    unfold DiagScope.run Diag.run
+    simp only [h1, hx]
+    by_cases ha : (locate none [] steps).any (Spec.exits cfg.strict) = true
+    · simp [ha]
+    · simp only [Bool.not_eq_true] at ha
+      simp only [ha, Bool.false_eq_true, if_false, h2 ha]
+      split <;> simp
+  rw [key.1, key.2]
+  exact ⟨C15_exit _ _, C15_output _ _⟩
+
+/-! ### Tie A: the scopes and entry points of the code under test -/
+
+/-- Every `with` block and every SystemExit-catching `try` of rattr/**.py has a recognised
+verdict, and none can discard a SystemExit: managers' `__exit__` return None / False, generator
+managers do not catch around their `yield`, handlers end in `raise`. -/
+theorem C15_scopes_benign :
+    ∀ r ∈ Generated.C15.scopes, ∃ k, kindOfVerdict r.2.1 r.2.2 = some k ∧ k.benign = true := by
+  decide
+
+/-- The analysis of a file's AST (`compile_root_context`, `FileAnalyser`) always starts inside
+`with enter_file(<that file>)`: lexically, or — for the target — in the one function whose only
+caller wraps it in `enter_file(config.arguments.target)`. -/
+theorem C15_entries_in_own_file :
+    (∀ e ∈ Generated.C15.analysisEntries, e.2.2.2 ≠ "" ∨ e.2.1 = "__parse_and_analyse_file_impl")
+    ∧ Generated.C15.analysisEntryCallers ≠ []
+    ∧ (∀ c ∈ Generated.C15.analysisEntryCallers, c.2.2.2 = "config.arguments.target") := by
+  decide
+
+/-- `enter_file` has no `finally`: an exception leaving its block leaves `current_file` alone. -/
+theorem C15_enter_file_no_finally : DiagScope.restoresOnException = false := by decide
+
+/-- Scope ids resolve, through the regenerated table, only to kinds that cannot discard a
+SystemExit. -/
+theorem kindOfId_benign (id : String) (k : ScopeKind) (h : kindOfId id = some k) : k.benign = true := by
+  obtain ⟨r, hr, hk⟩ := lookupScope_mem _ _ _ h
+  obtain ⟨k', hk', hb⟩ := C15_scopes_benign r hr
+  rw [hk] at hk'
+  cases hk'
+  exact hb
+
+/-- A diagnostic as the harness reports it: scopes by id. -/
+structure RawDiag where
+  level : Level
+  badness : Nat
+  src : Option FileId
+  scopeIds : List String
+
+/-- All ids known ⇒ the resolved step. -/
+def RawDiag.resolve (d : RawDiag) : Option Step :=
+  (d.scopeIds.mapM kindOfId).map (Step.diag d.level d.badness d.src)
+
+theorem mapM_kindOfId_benign (ids : List String) (ks : List ScopeKind)
+    (h : ids.mapM kindOfId = some ks) : ks.all ScopeKind.benign = true := by
+  induction ids generalizing ks with
+  | nil => simp at h; subst h; rfl
+  | cons i r ih =>
+    simp only [List.mapM_cons, Option.bind_eq_bind] at h
+    cases hk : kindOfId i with
+    | none => simp [hk] at h
+    | some k =>
+      cases hr : r.mapM kindOfId with
+      | none => simp [hk, hr] at h
+      | some ks' =>
+        simp [hk, hr] at h
+        subst h
+        simp [kindOfId_benign i k hk, ih ks' hr]
+
+/-- **End to end for the pinned scope table**: whatever scopes of rattr/**.py are active when the
+diagnostics of a run are raised, if every diagnostic is raised in its own file then the exit status
+is the contract's on the places where the diagnostics really arose. -/
+theorem C15_scoped_pinned (cfg : Cfg) (steps : List Step)
+    (hids : ∀ s ∈ steps, ∀ lv b src sc, s = Step.diag lv b src sc →
+              ∃ ids : List String, ids.mapM kindOfId = some sc)
+    (hf : inOwnFile none [] steps = true) :
+    (DiagScope.run cfg steps).exit = Spec.exit cfg.strict cfg.threshold (bySrc steps)
+    ∧ (DiagScope.run cfg steps).output = Spec.outputPrinted cfg.strict cfg.threshold (bySrc steps) := by
+  apply C15_scoped_exit cfg steps _ hf
+  unfold allBenign
+  rw [List.all_eq_true]
+  intro s hs
+  cases s with
+  | diag lv b src sc =>
+    obtain ⟨ids, hi⟩ := hids _ hs lv b src sc rfl
+    exact mapM_kindOfId_benign ids sc hi
+  | _ => rfl
+
+/-! ### Neither hypothesis can be dropped (evaluations, labelled as such) -/
+
+private def lax (thr : Nat) : Cfg := ⟨false, thr, .all, false, false⟩
+
+/-- The shape of "the star-imported module's root context is compiled after `enter_file` was
+left": the target's own star-import warning (weight 1) plus an error of the star-imported file 2
+counted while `current_file` is the target again. Threshold 1: the contract says exit 0 (only 1
+counts), the run exits 1 with 6 in the target bucket. -/
+theorem C15_scoped_needs_inOwnFile :
+    let steps := [Step.enterFile (some 0), .diag .warning 1 (some 0) [.propagate],
+                  .enterFile (some 2), .leaveFile, .diag .error 5 (some 2) [.propagate], .leaveFile]
+    allPass steps = true ∧ inOwnFile none [] steps = false
+    ∧ (DiagScope.run (lax 1) steps).exit = 1 ∧ (DiagScope.run (lax 1) steps).state = ⟨6, 0, 0⟩
+    ∧ Spec.exit false 1 (bySrc steps) = 0 ∧ Spec.buckets (bySrc steps) = ⟨1, 5, 0⟩ := by
+  decide
+
+/-- A manager whose `__exit__` returns a truthy value around the raise: the fatal is logged, the
+run goes on, prints its output and exits 0 — the contract says 1. -/
+theorem C15_scoped_needs_no_suppress :
+    let steps := [Step.enterFile (some 0), .diag .fatal 0 (some 0) [.propagate, .suppress, .propagate],
+                  .diag .info 0 (some 0) [.propagate], .leaveFile]
+    inOwnFile none [] steps = true ∧ allBenign steps = false
+    ∧ (DiagScope.run (lax 0) steps).exit = 0 ∧ (DiagScope.run (lax 0) steps).output = true
+    ∧ (DiagScope.run (lax 0) steps).logged = [⟨.fatal, .target⟩, ⟨.info, .target⟩]
+    ∧ Spec.exit false 0 (bySrc steps) = 1 := by
+  decide
+
+/-- Same under strict mode in an import: the promoted error is discarded and, import badness not
+counting, the gate passes too. -/
+theorem C15_scoped_needs_no_suppress_strict_import :
+    let steps := [Step.enterFile (some 0), .enterFile (some 1),
+                  .diag .error 5 (some 1) [.propagate, .suppress], .leaveFile, .leaveFile]
+    inOwnFile none [] steps = true
+    ∧ (DiagScope.run ⟨true, 0, .all, false, false⟩ steps).exit = 0
+    ∧ Spec.exit true 0 (bySrc steps) = 1 := by
+  decide
+
+/-- A handler that may fall through has the same effect. -/
+theorem C15_scoped_needs_no_swallowing_handler :
+    let steps := [Step.enterFile (some 0), .diag .fatal 0 (some 0) [.catchSwallow, .capture], .leaveFile]
+    (DiagScope.run (lax 0) steps).exit = 0 ∧ Spec.exit false 0 (bySrc steps) = 1
+    ∧ (DiagScope.run (lax 0) steps).stderr = [] := by
+  decide
+
+/-- Non-vacuity: a run through target, a star-imported file, a followed import and simplification
+that satisfies both hypotheses of `C15_scoped_exit`, with a fatal held by the pinned code's
+re-raising handler under `redirect_stderr` (its line does not reach stderr), then raised again. -/
+example :
+    let steps := [Step.enterFile (some 0), .diag .warning 1 (some 0) [.propagate, .propagate],
+                  .enterFile (some 2), .diag .error 5 (some 2) [.propagate, .propagate, .propagate], .leaveFile,
+                  .enterFile (some 1), .diag .warning 1 (some 1) [.propagate], .leaveFile,
+                  .diag .fatal 0 (some 0) [.propagate, .catchReraise, .capture],
+                  .diag .fatal 0 (some 0) [.propagate]]
+    allBenign steps = true ∧ inOwnFile none [] steps = true
+    ∧ (DiagScope.run (lax 0) steps).exit = 1 ∧ (DiagScope.run (lax 0) steps).state = ⟨1, 6, 0⟩
+    ∧ (DiagScope.run (lax 0) steps).stderr = [⟨.warning, .target⟩, ⟨.error, .import_⟩, ⟨.warning, .import_⟩, ⟨.fatal, .target⟩] := by
+  decide
+
+/-- The ids of the two `DictChanges` blocks and of the star-import `enter_file` resolve. -/
+example : kindOfId "rattr/analyser/file.py::FileAnalyser.visit_AnyAssign::with DictChanges#0" = some .propagate
+    ∧ kindOfId "rattr/models/context/_root_context.py::RootContextBuilder.visit_assignment::with DictChanges#0" = some .propagate
+    ∧ kindOfId "rattr/models/context/_context.py::Context.expand_starred_imports::with enter_file#0" = some .propagate
+    ∧ kindOfId "rattr/analyser/util.py::parse_rattr_results_from_annotation_args_impl::except SystemExit#0" = some .catchReraise := by
+  decide
+
+end Scoped
 
 end Rattr.C15
